@@ -166,7 +166,7 @@ class Main(Part):
 
     def budget(self, tier):
         return {"quick": dict(examples=250, shards=6, seconds=80),
-                "thorough": dict(examples=3000, shards=16, seconds=900)}[tier]
+                "thorough": dict(examples=3000, shards=16, seconds=600)}[tier]
 
     def strategy(self, tier):
         return histories()
